@@ -45,3 +45,88 @@ def _event_control(table, specs):
     out.append(('no_nested_run', not bad, 'Environment.step/run/_terminate/_reset are called only from Environment/System',
                 '; '.join(bad)))
     return out
+
+
+@scan('frame.resource_pool_private_state', ['C09', 'C10', 'C11'],
+      note='pool table and waiter list are written only by ResourceManager; holdings only by ReservedResources')
+def _rm_private(table, specs):
+    return private_state_scan(table, ['_resources', '_waiting_requests'], {'ResourceManager'}) + \
+        private_state_scan(table, ['_reserved_resources'], {'ReservedResources', 'PartProcessor'})
+
+
+@scan('frame.resource_writes_are_recorded', ['C15'],
+      note='every store into ResourceManager._resources[...] is followed, in the same block and before any other '
+           'store or return, by _record_resource_amount_update(<same name>) (possibly under `if self._env != None`)')
+def _rm_recorded(table, specs):
+    ci = table.classes.get('ResourceManager')
+    bad = []
+    if ci is None:
+        return [('', False, 'ResourceManager exists', 'class not found')]
+
+    def is_store(st):
+        if isinstance(st, ast.Assign):
+            for t in st.targets:
+                if isinstance(t, ast.Subscript) and isinstance(t.value, ast.Attribute) and t.value.attr == '_resources':
+                    return ast.unparse(t.slice)
+        return None
+
+    def records(st, name):
+        for n in ast.walk(st):
+            if isinstance(n, ast.Call) and isinstance(n.func, ast.Attribute) and \
+                    n.func.attr == '_record_resource_amount_update' and n.args and ast.unparse(n.args[0]) == name:
+                return True
+        return False
+
+    def blocks(node):
+        for n in ast.walk(node):
+            for f in ('body', 'orelse', 'finalbody', 'handlers'):
+                b = getattr(n, f, None)
+                if isinstance(b, list) and b and isinstance(b[0], ast.stmt):
+                    yield n, b
+
+    for fname, fi in ci.methods.items():
+        parent = {}
+        for n in ast.walk(fi.node):
+            for c in ast.iter_child_nodes(n):
+                parent[id(c)] = n
+
+        def enclosing_block(node):
+            """(block list, index) of the statement list that directly contains `node`"""
+            p = parent.get(id(node))
+            if p is None:
+                return None
+            for f in ('body', 'orelse', 'finalbody'):
+                b = getattr(p, f, None)
+                if isinstance(b, list) and any(x is node for x in b):
+                    return b, [i for i, x in enumerate(b) if x is node][0], p
+            return None
+
+        for st in ast.walk(fi.node):
+            name = is_store(st) if isinstance(st, ast.stmt) else None
+            if name is None:
+                continue
+            ok = False
+            node = st
+            for _ in range(8):
+                eb = enclosing_block(node)
+                if eb is None:
+                    # e.g. an except handler: continue from the try statement that owns it
+                    node = parent.get(id(node))
+                    if node is None or node is fi.node:
+                        break
+                    continue
+                blk, idx, owner = eb
+                stop = False
+                for later in blk[idx + 1:]:
+                    if records(later, name):
+                        ok = True
+                        break
+                    if is_store(later) or isinstance(later, ast.Return):
+                        stop = True
+                        break
+                if ok or stop or owner is fi.node:
+                    break
+                node = owner
+            if not ok:
+                bad.append(f'{fi.where} {fname}: store to _resources[{name}] at line {st.lineno} is not followed by a record')
+    return [('', not bad, 'each pool update is recorded', '; '.join(bad))]
